@@ -191,7 +191,7 @@ func genExprCase(t *rapid.T) Case {
 	c.EvalAll = rapid.IntRange(0, 4).Draw(t, "ea") == 0
 	c.NulSep = rapid.IntRange(0, 7).Draw(t, "nul") == 0
 	c.Prefs = genPrefs(t)
-	c.Expr, c.Input = gen.BoundCase(c.Expr, c.Input)
+	c.Expr, c.Input = gen.BoundCase(c.Expr, gen.BoundInput(c.In, c.Input))
 	return c
 }
 
@@ -238,6 +238,7 @@ func genInputCase(t *rapid.T) Case {
 	c.EvalAll = rapid.IntRange(0, 4).Draw(t, "ea") == 0
 	c.NulSep = rapid.IntRange(0, 7).Draw(t, "nul") == 0
 	c.Prefs = genPrefs(t)
+	c.Input = gen.BoundInput(c.In, c.Input)
 	return c
 }
 
@@ -250,7 +251,7 @@ func genBytesCase(t *rapid.T) Case {
 	if rapid.Bool().Draw(t, "valid_expr") {
 		c.Expr = rapid.SampledFrom(smallExprs).Draw(t, "sexpr")
 	}
-	c.Expr, c.Input = gen.BoundCase(c.Expr, c.Input)
+	c.Expr, c.Input = gen.BoundCase(c.Expr, gen.BoundInput(c.In, c.Input))
 	return c
 }
 
